@@ -33,8 +33,19 @@ def make_case(lines, cutoff, allch, c1, c2, obb, exh, pairs, extend):
 
 def evaluate(ctx, rep, pdb2sql, groups, record=True):
     reqs, plan = [], []
-    for lines, cutoff, cfgs, base in groups:
+    for grp in groups:
+        lines, cutoff, cfgs, base = grp[:4]
+        renum = grp[4] if len(grp) > 4 else None
         st = Struct(pdb2sql, lines)
+        if renum:
+            # repeated use of ONE object: residues are asked for, then the residues are renumbered / renamed through the
+            # public API, then the calls under test: the answers must carry the NEW residue numbers and names
+            run_impl(lambda: st.db.get_contact_residues(cutoff=cutoff))
+            run_impl(lambda: st.db.get_contact_residues(cutoff=cutoff, allchains=True, return_contact_pairs=True))
+            st.db.update_column('resSeq', [int(t[3]) + renum for t in st.table])
+            st.db.update_column('resName', [{'ALA': 'GLY', 'GLY': 'ALA'}.get(t[2], t[2]) for t in st.table])
+            st.table = table_of(st.db); st.wire = wire_table(st.table); st.chains = chains_of(st.table)
+            base = list(base) + ['object-reused-after-renumbering']
         if has_empty_name(st.table):
             rep.skipped['out_of_model_empty_name'] += 1
             continue
@@ -85,7 +96,9 @@ def evaluate(ctx, rep, pdb2sql, groups, record=True):
                                 if extend and not pairs and impl[0] == 'OK' and sort_keys(impl) != sort_keys(src):
                                     feats.append('extension-adds-atoms')
                             if src[0] != 'OK': feats.append('outside-domain(tie-only)')
-                            plan.append((make_case(lines, cutoff, allch, c1, c2, obb, exh, pairs, extend), impl, k, ks, direct, feats))
+                            cs_ = make_case(lines, cutoff, allch, c1, c2, obb, exh, pairs, extend)
+                            if renum: cs_['prime_then_renumber'] = renum
+                            plan.append((cs_, impl, k, ks, direct, feats))
     outs = ctx.model.batch(reqs)
     rep.model_reqs += reqs
     rep.model_outs += outs
@@ -160,7 +173,10 @@ def explore(ctx, tier, rng, search=False):
         dist[f'chains={len(chains)}'] += 1
         dist['lattice-0.125' if lattice else 'grid-0.001'] += 1
         dist[f'atoms={10 * (len(atoms) // 10)}-{10 * (len(atoms) // 10) + 9}'] += 1
-        groups.append((to_lines(atoms), cutoff, configs_for(chains, rng, full=(len(chains) <= 3 and big)), []))
+        grp = (to_lines(atoms), cutoff, configs_for(chains, rng, full=(len(chains) <= 3 and big)), [])
+        if rng.random() < 0.15:
+            grp = grp + (rng.choice([1, 100, -7]),)
+        groups.append(grp)
     for i in range(0, len(groups), 10):
         evaluate(ctx, rep, pdb2sql, groups[i:i + 10])
     empty = [m for m in MANDATORY if rep.features.get(m, 0) == 0]
@@ -175,7 +191,10 @@ def explore(ctx, tier, rng, search=False):
 def replay(ctx, case):
     pdb2sql = import_impl()
     rep = Report()
-    res = evaluate(ctx, rep, pdb2sql, [(case['lines'], case['cutoff'], [(case['allchains'], case['chain1'], case['chain2'], True)], [])], record=False)
+    grp = (case['lines'], case['cutoff'], [(case['allchains'], case['chain1'], case['chain2'], True)], [])
+    if case.get('prime_then_renumber'):
+        grp = grp + (case['prime_then_renumber'],)
+    res = evaluate(ctx, rep, pdb2sql, [grp], record=False)
     for c, vok, tok, text in res:
         if all(c[k] == case[k] for k in ('only_bb', 'exclH', 'pairs', 'extend')):
             return (vok and tok), text
